@@ -158,5 +158,9 @@ pub fn run(cli: Cli) -> ! {
     rep.require("connections with a segmented first burst through the real Listener", conns.load(Ordering::Relaxed), 50);
     rep.set("listener_level_segmentations", json!(conns.load(Ordering::Relaxed)));
     rep.assume("listener part: real TCP on loopback with TCP_NODELAY, pieces written 30 ms (byte by byte: 1 ms) apart; whether two writes end up in one segment is the kernel's business, which is why 'one segment' is a single write");
+    // the assembled router: stage-wise schedules of two clients and of the shutdown signal against the real Listener,
+    // and the application started by passage::start from a configuration read by Config::read()
+    crate::world::host(&rep, "C08", cli.tier.thorough());
+    crate::app::host(&rep, "C08", cli.tier.thorough());
     rep.finish()
 }
